@@ -206,6 +206,8 @@ class Hist:
         canary = cfg.get('canary')
         algo = cfg['algo']
         evals = []
+        from harness.keys import module_state
+        module_state().reset()           # every path starts like a fresh interpreter (module-level memos of klepto emptied)
         if cfg['backend'] in PERSISTENT_ALL and not ctx.concrete():
             from harness import arch
             import os
@@ -258,8 +260,16 @@ class Hist:
         else:
             D = ctx.atom(ArgSort, 'd')
 
-            def f(x, y=D):
-                return body((x, y))
+            def mk(dv, bodyfn):
+                def f(x, y=dv):           # every function made here shares one code object (as closures from one def do)
+                    return bodyfn((x, y))
+                return f
+            if cfg.get('sibling', True):
+                # a sibling of the same code with another default has its own cache and is used first
+                D0 = ctx.atom(ArgSort, 'd')
+                g0 = self._decorate(ctx, mk(D0, lambda b: ctx.apply('F2', [warg(v) for v in b])), None if cfg['backend'] == 'none' else {}, 3 if algo in BOUNDED else None)
+                g0(ctx.atom(ArgSort, 'x'))
+            f = mk(D, body)
         # maxsize
         ms = cfg.get('maxsize', 'sym')
         if algo == 'no':
